@@ -1123,7 +1123,10 @@ pub fn seal_ambiguity(m: &RefState) -> BTreeSet<String> {
                     .map(|t| t.outputs[0].value.0)
                     .fold(0u128, |a, b| a.saturating_add(b));
                 let liqs = m.pools.get(&canon).map(|p| p.liqs).unwrap_or(0);
-                if total == 0 || total >= liqs {
+                let builtin = builtin_pool_keys().contains(&canon);
+                // more than the pool's liquidity, or all of a built-in pool's: the statement has no rule.  All of an ordinary pool's
+                // liquidity is an ordinary settlement (the pool pays out everything, pro rata, rounded down).
+                if total == 0 || total > liqs || (builtin && total == liqs) {
                     // (withdrawing exactly everything is honoured for ordinary pools and refused for built-in ones; either way the
                     //  settlement is compared by invariants only)
                     s.insert("unhonourable-or-total-withdrawal".to_string());
